@@ -777,7 +777,7 @@ type hEval struct {
 	relaxed map[*TVal]map[int]bool
 	// provenance of each expected root/nested field value (for triage facts)
 	used                                                   [nHKind]int
-	usedFallbackBody, usedTraceback, usedZero, usedNoValue int
+	usedFallbackBody, usedTraceback, usedZero, usedNoValue, usedFormFallback int
 	errField                                               *TField
 }
 
@@ -902,6 +902,20 @@ func (e *hEval) evalStruct(t *TType, obj *TVal, root bool, nobody bool) (*TVal, 
 				}
 				out.Fields = append(out.Fields, TFieldVal{F: f, V: x})
 				continue
+			}
+			if nobody && root && e.o.RHVF && !e.o.WD && f.Req == reqDefault && e.r.BodyKind == hbForm {
+				// ReadHttpValueFallback: "fallback to http body" - the body is a form, its member named by the
+				// field's own key is the fallback (see genRequest for the cells that are left out)
+				if sv := findSrc(e.r.Form, f.Key(), false); sv != nil {
+					e.usedFormFallback++
+					x, er := e.evalValue(f.T, sv.Val)
+					if er != heNone {
+						fail(er)
+						continue
+					}
+					out.Fields = append(out.Fields, TFieldVal{F: f, V: x})
+					continue
+				}
 			}
 			if nobody || !e.o.RHVF {
 				// no source has a value and there is no body fallback: truth table
